@@ -30,7 +30,7 @@ META = dict(
     note="the in-process stand-in for subprocess is validated against a real stub pkg-config executable on ~250 (quick) / ~700 (thorough) cases; "
          "filesystem encoding is UTF-8")
 
-TOKENS = ["-Ia", "-I", "-Lb", "-lc", "-Dk", "-Dk=v", "-Dk=v=w", "-D", "-pthread", "-Wl,x", "-"]
+TOKENS = ["-Ia", "-I", "-Lb", "-lc", "-Dk", "-Dk=v", "-Dk=v=w", "-Dk=", "-D=v", "-D", "-pthread", "-Wl,x", "-"]
 SEPS = {"space": ("", " ", "\n"), "tab": ("", "\t", "\n"), "newline": ("", "\n", "\n"),
         "double": ("", "  ", "\n"), "padded": (" ", " ", " \n")}
 SEP_NAMES = ["space", "tab", "newline", "double", "padded"]
